@@ -69,7 +69,7 @@ def leaves(obj, path=()):
 
 def cells_of(m):
     labels = list(m.model_spec.column_names)
-    arr = numpy.asarray(m, dtype=object)
+    arr = numpy.asarray(m.todense() if hasattr(m, "todense") else m, dtype=object)
     if arr.ndim == 1:
         arr = arr.reshape((-1, len(labels)))
     return labels, arr
@@ -88,11 +88,12 @@ def check_config(cfg, numeric: dict, same, tag_eq, symbolic: bool):
         for k, v in numeric.items():
             df[k] = numpy.asarray(v, dtype=float)
     out = cfg["output"]
+    mkw = {"materializer": cfg["materializer"]} if cfg.get("materializer") else {}
     problems, claims = [], []
     F = make_formula(kind, spec)
     nulls = na.null_rows(nvars, zs, ws, as_)
     kept = [k for k in range(N) if k not in nulls]
-    mm = F.get_model_matrix(df, context=ctx, output=out)
+    mm = F.get_model_matrix(df, context=ctx, output=out, **mkw)
     if skeleton(mm) != skeleton(F):
         problems.append(("shape", f"result shape {skeleton(mm)} != formula shape {skeleton(F)}"))
         return problems, claims
@@ -106,7 +107,7 @@ def check_config(cfg, numeric: dict, same, tag_eq, symbolic: bool):
         if arr.shape[0] != len(kept):
             problems.append(("rows-differ", f"part {path} has {arr.shape[0]} rows, the jointly kept rows are {kept}"))
             continue
-        if out == "pandas" and list(part.index) != [df.index[k] for k in kept]:
+        if out == "pandas" and not mkw and list(part.index) != [df.index[k] for k in kept]:
             problems.append(("index-differs", f"part {path} index {list(part.index)} != {[df.index[k] for k in kept]}"))
         if part.model_spec is not sl[path]:
             problems.append(("spec-mismatch", f"part {path}: attached spec is not the one at the same place of .model_spec"))
@@ -115,7 +116,7 @@ def check_config(cfg, numeric: dict, same, tag_eq, symbolic: bool):
                 for r, k in enumerate(kept):
                     claims.append((f"part {path} row {r} is input row {k}", tag_eq(arr[r, j], k)))
         # the part alone, with the jointly dropped rows supplied
-        alone = model_matrix(fl[path], df, context=ctx, output=out, drop_rows=set(nulls))
+        alone = model_matrix(fl[path], df, context=ctx, output=out, drop_rows=set(nulls), **mkw)
         la, ca = cells_of(alone)
         if la != labels or ca.shape != arr.shape:
             problems.append(("separate-build-differs", f"part {path}: columns {labels} vs separate build {la}"))
